@@ -3,38 +3,356 @@ import XcpModel.Backup
 exceeds every existing one; histories of copies never lose or modify a version. -/
 namespace Xcp
 
+/-! ## Digits -/
+
+theorem isDigit_iff (b : UInt8) : isDigit b = true ↔ 48 ≤ b.toNat ∧ b.toNat ≤ 57 := by
+  simp [isDigit, UInt8.le_iff_toNat_le]
+
+theorem isDigit_ne_tilde (b : UInt8) (h : isDigit b = true) : b ≠ 126 := by
+  intro e; subst e; revert h; decide
+
+theorem digitsVal_append_single (ds : List UInt8) (d : UInt8) :
+    digitsVal (ds ++ [d]) = digitsVal ds * 10 + (d.toNat - 48) := by
+  simp [digitsVal, List.foldl_append]
+
+theorem toNat_ofNat_digit (k : Nat) (h : k < 10) : (UInt8.ofNat (48 + k)).toNat = 48 + k := by
+  rw [UInt8.toNat_ofNat']; omega
+
+theorem digitsRev_spec : ∀ (f n : Nat), n < f →
+    digitsRev f n ≠ [] ∧ (digitsRev f n).all isDigit = true ∧ digitsVal (digitsRev f n).reverse = n := by
+  intro f
+  induction f with
+  | zero => intro n h; omega
+  | succ f ih =>
+    intro n h
+    unfold digitsRev
+    by_cases h10 : n < 10
+    · rw [if_pos h10]
+      refine ⟨by simp, ?_, ?_⟩
+      · simp only [List.all_cons, List.all_nil, Bool.and_true]
+        rw [isDigit_iff, toNat_ofNat_digit n h10]; omega
+      · have := digitsVal_append_single [] (UInt8.ofNat (48 + n))
+        simp only [List.nil_append] at this
+        simp only [List.reverse_cons, List.reverse_nil, List.nil_append]
+        rw [this, toNat_ofNat_digit n h10]; simp [digitsVal]
+    · rw [if_neg h10]
+      have hlt : n / 10 < f := by omega
+      obtain ⟨_, h2, h3⟩ := ih (n / 10) hlt
+      refine ⟨by simp, ?_, ?_⟩
+      · simp only [List.all_cons, h2, Bool.and_true]
+        rw [isDigit_iff, toNat_ofNat_digit (n % 10) (by omega)]; omega
+      · rw [List.reverse_cons, digitsVal_append_single, h3, toNat_ofNat_digit (n % 10) (by omega)]
+        omega
+
 /-- `decimal` produces ASCII digits whose value is `n` -/
 theorem decimal_spec (n : Nat) : decimal n ≠ [] ∧ (decimal n).all isDigit = true ∧ digitsVal (decimal n) = n := by
-  sorry
+  obtain ⟨h1, h2, h3⟩ := digitsRev_spec (n + 1) n (by omega)
+  refine ⟨?_, ?_, h3⟩
+  · simpa [decimal] using h1
+  · simpa [decimal] using h2
+
+/-! ## The recogniser -/
+
+theorem stripPrefix_eq_some (base cand r : Name) : stripPrefix base cand = some r ↔ cand = base ++ r := by
+  induction base generalizing cand with
+  | nil => simp [stripPrefix, eq_comm]
+  | cons b bs ih =>
+    cases cand with
+    | nil => simp [stripPrefix]
+    | cons c cs =>
+      simp only [stripPrefix]
+      by_cases h : b = c
+      · subst h; simp [ih]
+      · simp [h]; intro e; exact absurd e.symm h
+
+theorem stripPrefix_append (base r : Name) : stripPrefix base (base ++ r) = some r :=
+  (stripPrefix_eq_some base _ r).2 rfl
+
+theorem parseTilde_wrap (ds : List UInt8) :
+    parseTilde (126 :: (ds ++ [126])) =
+      if (ds ≠ [] && ds.all isDigit && digitsVal ds < 2^64) = true then some (digitsVal ds) else none := by
+  simp [parseTilde]
+
+theorem parseTilde_shape (ext : List UInt8) (n : Nat) (h : parseTilde ext = some n) :
+    ∃ ds, ext = 126 :: (ds ++ [126]) := by
+  unfold parseTilde at h
+  split at h
+  · split at h
+    · rename_i rest _ dsr heq
+      refine ⟨dsr.reverse, ?_⟩
+      have := congrArg List.reverse heq
+      simp at this
+      simp [this]
+    · cases h
+  · cases h
+
+theorem parseTilde_eq_some (ext : List UInt8) (n : Nat) :
+    parseTilde ext = some n ↔
+      ∃ ds : List UInt8, ds ≠ [] ∧ ds.all isDigit = true ∧ ext = 126 :: (ds ++ [126]) ∧
+        digitsVal ds = n ∧ n < 2^64 := by
+  constructor
+  · intro h
+    obtain ⟨ds, rfl⟩ := parseTilde_shape ext n h
+    rw [parseTilde_wrap] at h
+    split at h
+    · rename_i hc
+      simp only [Bool.and_eq_true, decide_eq_true_eq] at hc
+      cases h
+      exact ⟨ds, hc.1.1, hc.1.2, rfl, rfl, hc.2⟩
+    · cases h
+  · rintro ⟨ds, h1, h2, rfl, rfl, h5⟩
+    rw [parseTilde_wrap, if_pos]
+    simp [h1, h2, h5]
 
 /-- exact characterisation of the recogniser -/
 theorem isNumBackup_iff (base cand : Name) (n : Nat) :
     isNumBackup base cand = some n ↔
       ∃ ds : List UInt8, ds ≠ [] ∧ ds.all isDigit = true ∧ cand = base ++ [46, 126] ++ ds ++ [126] ∧
         digitsVal ds = n ∧ n < 2^64 := by
-  sorry
+  constructor
+  · intro h
+    unfold isNumBackup at h
+    split at h
+    · rename_i ext hsp
+      rw [stripPrefix_eq_some] at hsp
+      obtain ⟨ds, h1, h2, rfl, h4, h5⟩ := (parseTilde_eq_some ext n).1 h
+      exact ⟨ds, h1, h2, by simp [hsp], h4, h5⟩
+    · cases h
+  · rintro ⟨ds, h1, h2, rfl, h4, h5⟩
+    have hsp : stripPrefix base (base ++ [46, 126] ++ ds ++ [126]) = some (46 :: 126 :: (ds ++ [126])) := by
+      rw [stripPrefix_eq_some]; simp
+    unfold isNumBackup
+    rw [hsp]
+    exact (parseTilde_eq_some _ n).2 ⟨ds, h1, h2, rfl, h4, h5⟩
 
 /-- round trip: the name xcp generates is recognised with its own number -/
 theorem isNumBackup_backupName (base : Name) (n : Nat) (h : n < 2^64) :
     isNumBackup base (backupName base n) = some n := by
-  sorry
+  obtain ⟨h1, h2, h3⟩ := decimal_spec n
+  exact (isNumBackup_iff base _ n).2 ⟨decimal n, h1, h2, rfl, h3, h⟩
 
 /-- a name is a backup of at most one number … -/
 theorem backupName_inj (base : Name) (n m : Nat) (h : backupName base n = backupName base m) : n = m := by
-  sorry
+  have hd : decimal n = decimal m := by simpa [backupName] using h
+  have := congrArg digitsVal hd
+  rwa [(decimal_spec n).2.2, (decimal_spec m).2.2] at this
 
 /-- … and a generated backup name is never the file's own name -/
 theorem backupName_ne (base : Name) (n : Nat) : backupName base n ≠ base := by
-  sorry
+  intro h
+  have := congrArg List.length h
+  simp [backupName] at this
+
+theorem le_maxList (l : List Nat) (m : Nat) (h : m ∈ l) : m ≤ maxList l := by
+  induction l with
+  | nil => cases h
+  | cons x r ih =>
+    simp only [maxList]
+    rcases List.mem_cons.1 h with rfl | h'
+    · omega
+    · have := ih h'; omega
+
+theorem nextBackupNum_eq_some (dir : List Name) (base : Name) (N : Nat) (h : nextBackupNum dir base = some N) :
+    N = maxList (backupNums dir base) + 1 ∧ N < 2^64 := by
+  unfold nextBackupNum at h
+  simp only at h
+  split at h
+  · cases h; exact ⟨rfl, by assumption⟩
+  · cases h
 
 /-- the number chosen exceeds every recognised number in the directory -/
 theorem nextBackupNum_greater (dir : List Name) (base : Name) (N : Nat) (h : nextBackupNum dir base = some N) :
     ∀ c ∈ dir, ∀ m, isNumBackup base c = some m → m < N := by
-  sorry
+  intro c hc m hm
+  obtain ⟨rfl, _⟩ := nextBackupNum_eq_some dir base N h
+  have : m ∈ backupNums dir base := List.mem_filterMap.2 ⟨c, hc, hm⟩
+  have := le_maxList _ _ this
+  omega
 
 /-- the name chosen is not present in the directory -/
 theorem nextBackupNum_fresh (dir : List Name) (base : Name) (N : Nat) (h : nextBackupNum dir base = some N) :
     backupName base N ∉ dir := by
-  sorry
+  intro hin
+  have hN := (nextBackupNum_eq_some dir base N h).2
+  have := nextBackupNum_greater dir base N h _ hin N (isNumBackup_backupName base N hN)
+  omega
+
+/-! ## The directory as a finite map -/
+
+theorem Dir.get_erase (d : Dir) (a k : Name) : (d.erase a).get k = if k = a then none else d.get k := by
+  induction d with
+  | nil => simp [Dir.erase, Dir.get]
+  | cons kv r ih =>
+    obtain ⟨k', v⟩ := kv
+    unfold Dir.erase at ih ⊢
+    by_cases hk : k' = a
+    · subst hk
+      simp only [List.filter_cons, ne_eq, not_true_eq_false, decide_false, Bool.false_eq_true, if_false, ih, Dir.get]
+      by_cases hka : k = k'
+      · subst hka; simp
+      · have : ¬ k' = k := fun e => hka e.symm
+        simp [hka, this]
+    · simp only [List.filter_cons, ne_eq, hk, not_false_eq_true, decide_true, if_true, Dir.get, ih]
+      by_cases hkk : k' = k
+      · subst hkk; simp [hk]
+      · simp [hkk]
+
+theorem Dir.get_set (d : Dir) (n : Name) (v : List UInt8) (k : Name) :
+    (d.set n v).get k = if k = n then some v else d.get k := by
+  unfold Dir.set
+  simp only [Dir.get, Dir.get_erase]
+  by_cases h : n = k
+  · subst h; simp
+  · have : ¬ k = n := fun e => h e.symm
+    simp [h, this]
+
+theorem Dir.rename_of_none (d : Dir) (a b : Name) (h : d.get a = none) : d.rename a b = d := by
+  simp [Dir.rename, h]
+
+theorem Dir.get_rename (d : Dir) (a b k : Name) (v : List UInt8) (h : d.get a = some v) :
+    (d.rename a b).get k = if k = b then some v else if k = a then none else d.get k := by
+  simp only [Dir.rename, h, Dir.get_set, Dir.get_erase]
+
+theorem Dir.get_eq_none_iff (d : Dir) (k : Name) : d.get k = none ↔ k ∉ d.names := by
+  induction d with
+  | nil => simp [Dir.get, Dir.names]
+  | cons kv r ih =>
+    obtain ⟨k', v⟩ := kv
+    unfold Dir.names at ih ⊢
+    simp only [Dir.get, List.map_cons, List.mem_cons, not_or]
+    by_cases h : k' = k
+    · subst h; simp
+    · have : ¬ k = k' := fun e => h e.symm
+      simp [h, this, ih]
+
+theorem Dir.mem_names_iff (d : Dir) (k : Name) : k ∈ d.names ↔ ∃ v, d.get k = some v := by
+  have := Dir.get_eq_none_iff d k
+  cases hg : d.get k with
+  | none => simp [hg] at this; simp [this]
+  | some v => simp [hg] at this; simp [this]
+
+theorem Dir.names_erase_sublist (d : Dir) (a : Name) : List.Sublist (d.erase a).names d.names := by
+  unfold Dir.erase Dir.names
+  exact List.Sublist.map _ List.filter_sublist
+
+theorem Dir.nodup_erase (d : Dir) (a : Name) (h : d.names.Nodup) : (d.erase a).names.Nodup :=
+  List.Nodup.sublist (Dir.names_erase_sublist d a) h
+
+theorem Dir.nodup_set (d : Dir) (n : Name) (v : List UInt8) (h : d.names.Nodup) : (d.set n v).names.Nodup := by
+  have h1 : n ∉ (d.erase n).names := by
+    rw [← Dir.get_eq_none_iff, Dir.get_erase]; simp
+  have h2 := Dir.nodup_erase d n h
+  unfold Dir.set Dir.names at *
+  simp only [List.map_cons, List.nodup_cons]
+  exact ⟨h1, h2⟩
+
+theorem Dir.nodup_rename (d : Dir) (a b : Name) (h : d.names.Nodup) : (d.rename a b).names.Nodup := by
+  unfold Dir.rename
+  split
+  · exact Dir.nodup_set _ _ _ (Dir.nodup_erase _ _ h)
+  · exact h
+
+theorem Dir.nodup_step (d : Dir) (s : BStep) (h : d.names.Nodup) : (d.step s).names.Nodup := by
+  cases s with
+  | rename a b => exact Dir.nodup_rename d a b h
+  | createTrunc n => exact Dir.nodup_set d n [] h
+  | fill n c => exact Dir.nodup_set d n c h
+
+theorem runSteps_nodup (l : List BStep) (d : Dir) (h : d.names.Nodup) : (runSteps d l).names.Nodup := by
+  induction l generalizing d with
+  | nil => exact h
+  | cons s l ih => exact ih (d.step s) (Dir.nodup_step d s h)
+
+/-- `copyOnce` keeps the keys of the directory distinct -/
+theorem copyOnce_nodup (d : Dir) (op : BackupMode × Name × List UInt8) (h : d.names.Nodup) :
+    (copyOnce d op).names.Nodup := by
+  unfold copyOnce
+  split
+  · exact runSteps_nodup _ d h
+  · exact h
+
+theorem runHistory_nodup (h : List (BackupMode × Name × List UInt8)) (d : Dir) (hd : d.names.Nodup) :
+    (runHistory d h).names.Nodup := by
+  induction h generalizing d with
+  | nil => exact hd
+  | cons op h ih => exact ih (copyOnce d op) (copyOnce_nodup d op hd)
+
+/-! ## One copy -/
+
+theorem needsBackup_get {d : Dir} {mode : BackupMode} {name : Name}
+    (h : needsBackup mode (d.get name).isSome d.names name = true) : ∃ old, d.get name = some old := by
+  cases hg : d.get name with
+  | some old => exact ⟨old, rfl⟩
+  | none => cases mode <;> simp [needsBackup, hg] at h
+
+theorem copySteps_backup {d : Dir} {mode : BackupMode} {name : Name} (new : List UInt8) {N : Nat}
+    (h : needsBackup mode (d.get name).isSome d.names name = true) (hN : nextBackupNum d.names name = some N) :
+    copySteps d mode name new = some [.rename name (backupName name N), .createTrunc name, .fill name new] := by
+  simp [copySteps, h, hN]
+
+theorem copySteps_refused {d : Dir} {mode : BackupMode} {name : Name} (new : List UInt8)
+    (h : needsBackup mode (d.get name).isSome d.names name = true) (hN : nextBackupNum d.names name = none) :
+    copySteps d mode name new = none := by
+  simp [copySteps, h, hN]
+
+theorem copySteps_nobackup {d : Dir} {mode : BackupMode} {name : Name} (new : List UInt8)
+    (h : needsBackup mode (d.get name).isSome d.names name = false) :
+    copySteps d mode name new = some [.createTrunc name, .fill name new] := by
+  simp [copySteps, h]
+
+/-- every kill point of the three-step sequence with backup -/
+theorem runSteps_backup_take (d : Dir) (name bn : Name) (old new : List UInt8) (hold : d.get name = some old)
+    (hbn : bn ≠ name) (i : Nat) :
+    let d' := runSteps d (List.take i [.rename name bn, .createTrunc name, .fill name new])
+    (d'.get name = some old ∨ d'.get bn = some old) ∧
+      (∀ k, k ≠ name → k ≠ bn → d'.get k = d.get k) := by
+  have hnb : ¬ name = bn := fun e => hbn e.symm
+  rcases i with _ | _ | _ | i
+  · simp [runSteps, hold]
+  · simp [runSteps, Dir.step, Dir.get_rename _ _ _ _ _ hold]
+    intro k h1 h2; simp [h1, h2]
+  · simp [runSteps, Dir.step, Dir.get_rename _ _ _ _ _ hold, Dir.get_set, hbn]
+    intro k h1 h2; simp [h1, h2]
+  · simp [runSteps, Dir.step, Dir.get_rename _ _ _ _ _ hold, Dir.get_set, hbn]
+    intro k h1 h2; simp [h1, h2]
+
+theorem runSteps_backup (d : Dir) (name bn : Name) (old new : List UInt8) (hold : d.get name = some old)
+    (hbn : bn ≠ name) (k : Name) :
+    (runSteps d [.rename name bn, .createTrunc name, .fill name new]).get k =
+      if k = name then some new else if k = bn then some old else d.get k := by
+  simp only [runSteps, List.foldl, Dir.step, Dir.get_rename _ _ _ _ _ hold, Dir.get_set]
+  by_cases h1 : k = name <;> by_cases h2 : k = bn <;> simp [h1, h2]
+
+theorem runSteps_nobackup (d : Dir) (name : Name) (new : List UInt8) (k : Name) :
+    (runSteps d [.createTrunc name, .fill name new]).get k = if k = name then some new else d.get k := by
+  simp only [runSteps, List.foldl, Dir.step, Dir.get_set]
+  by_cases h1 : k = name <;> simp [h1]
+
+/-- a copy that takes a backup: the new content under `name`, the old under the fresh backup name, rest untouched -/
+theorem copyOnce_backup_get {d : Dir} {mode : BackupMode} {name : Name} {old : List UInt8} (new : List UInt8) {N : Nat}
+    (h : needsBackup mode (d.get name).isSome d.names name = true) (hN : nextBackupNum d.names name = some N)
+    (hold : d.get name = some old) (k : Name) :
+    (copyOnce d (mode, name, new)).get k =
+      if k = name then some new else if k = backupName name N then some old else d.get k := by
+  simp only [copyOnce, copySteps_backup new h hN]
+  exact runSteps_backup d name _ old new hold (backupName_ne name N) k
+
+/-- a copy that takes no backup -/
+theorem copyOnce_nobackup_get {d : Dir} {mode : BackupMode} {name : Name} (new : List UInt8)
+    (h : needsBackup mode (d.get name).isSome d.names name = false) (k : Name) :
+    (copyOnce d (mode, name, new)).get k = if k = name then some new else d.get k := by
+  simp only [copyOnce, copySteps_nobackup new h]
+  exact runSteps_nobackup d name new k
+
+/-- a refused copy (backup number overflow) -/
+theorem copyOnce_refused {d : Dir} {mode : BackupMode} {name : Name} (new : List UInt8)
+    (h : needsBackup mode (d.get name).isSome d.names name = true) (hN : nextBackupNum d.names name = none) :
+    copyOnce d (mode, name, new) = d := by
+  simp only [copyOnce, copySteps_refused new h hN]
+
+/-- the backup name chosen is absent from the directory, so the `rename` overwrites nothing -/
+theorem backup_target_absent {d : Dir} {name : Name} {N : Nat} (hN : nextBackupNum d.names name = some N) :
+    d.get (backupName name N) = none :=
+  (Dir.get_eq_none_iff d _).2 (nextBackupNum_fresh d.names name N hN)
 
 end Xcp
